@@ -292,7 +292,7 @@ pub fn run(tier: Tier, seed: u64) -> i32 {
         }
         Ok(())
     });
-    let n = ctx.pick(1_200_000, 15_000_000);
+    let n = ctx.pick(3_000_000, 18_000_000);
     ctx.par_random(n, 200, 17, |tape, l| {
         let (g, input) = decode(tape);
         debug_assert!(wf(&g), "ill-formed: {}", render(&g));
